@@ -304,7 +304,7 @@ impl Scenario for StreamSc {
         self.0.name.clone()
     }
     fn poll_cap(&self) -> u64 {
-        3_000_000
+        1_000_000
     }
     fn run(&self) -> (StreamObs, Vec<Violation>) {
         let cfg = self.0.clone();
